@@ -329,6 +329,11 @@ func (s *socket) MaybeUpgrade(transport transports.Transport) {
 			transport.Send([]*packet.Packet{{Type: packet.PONG, Data: strings.NewReader("probe")}})
 			s.Emit("upgrading", transport)
 
+			if !s.upgrading.Load() {
+				// a listener closed the session or gave up the attempt:
+				// cleanup has run, do not arm a timer nobody would clear
+				return
+			}
 			utils.ClearInterval(checkIntervalTimer.Load())
 			checkIntervalTimer.Store(utils.SetInterval(check, 100*time.Millisecond))
 
